@@ -335,6 +335,28 @@ PROPS["C17"] = {
     "thorough": {"scale": 4, "shards": 8, "timeout": 1500},
 }
 
+PROPS["C18"] = {
+    "pkg": "c18",
+    "synctest": True,
+    "technique": "fault-injecting property testing inside testing/synctest bubbles: outcome vectors (nil/error/panic) x signal sequences for SignalHandler (exhaustive up to 5 services), virtual-time scenarios against a timeline model for RefreshWorker; call-history oracles",
+    "level_text": ("Generated fault/event sequences with call-history oracles under virtual time. SignalHandler: services with outcome nil/error/panic, 0-6 ignored signals, a "
+                   "shutdown signal, later signals, delivered through a fake SignalNotifier; before the shutdown signal Handle is still blocked and no Shutdown ran "
+                   "(exact, via synctest.Wait); after it the Shutdown calls are every registered service once in reverse order regardless of outcomes and the exit code is "
+                   "success iff all outcomes were nil; all 364 outcome vectors for 0-5 services are enumerated. RefreshWorker: injected clock, schedule, context "
+                   "constructor, refresher and error handler; the loop refreshes must start at exactly the instants of a timeline model (one per elapsed interval), each "
+                   "with a constructor context (tag, parent values visible, not cancelled, cancel called once), every loop error handed to the handler exactly once, "
+                   "UntilNext consulted once at start and after each refresh with After given its latest value, nothing after Shutdown except the single final "
+                   "refresh whose error Shutdown returns wrapped. fault_enumeration-like for the outcome vectors, exploration for the timelines."),
+    "level_note": "Trusted: testing/synctest of go1.24.2. A Shutdown exactly at a tick instant is not generated (select may take either branch); refresh outcomes are nil/error (the statement lists panic only for services); the error of the final refresh may or may not also reach the handler (at most once).",
+    "rule": ("Signal cases: non-trivial = at least two services with at least one non-nil outcome. Refresh scenarios: schedule delays 1-50 ms, refresh durations 0-30 ms, "
+             "outcomes nil/error (all cycled), Shutdown at k+0.5 ms with k in 0-300, RefreshOnShutdown and the final outcome drawn; non-trivial = at least two refreshes "
+             "with an error, or a Shutdown during an in-flight refresh. distinct = distinct case."),
+    "assumptions": [],
+    "expect_classes": {"signal:with-panicking-service": ("c18.signal", 0.2), "refresh:shutdown-during-in-flight-refresh": ("c18.refresh", 0.1)},
+    "quick": {"scale": 5, "shards": 1, "timeout": 600},
+    "thorough": {"scale": 6, "shards": 16, "timeout": 1500},
+}
+
 ALL_IDS = ["C%02d" % i for i in range(1, 21)]
 NOT_APPLICABLE = [
     {"property_id": pid, "reason": "check not built yet in this revision of the harness (work in progress; see DESIGN.md section 9)"}
